@@ -6,7 +6,8 @@
    Where the interface leaves a choice to the implementation the specification
    takes the implementation's decision as [adv]ice and CHECKS it:
    - which id mpt_command_reserve hands out (must be unused and inside the range
-     asked for; refusing is always allowed),
+     asked for; refusing is allowed only when every id of the range is taken),
+   - (harness, not library) whether the replacement of the table object is skipped,
    - refusing a command text longer than 128 bytes that is not held in one part.
    [SBad] = the decision is not allowed. *)
 From MptV Require Import Base.Mem C17.MessageModel C17.MessageSpec C11.DispatchModel.
@@ -31,6 +32,14 @@ Fixpoint m_remove (m : list (N * hdl)) (id : N) : list (N * hdl) :=
   | (k, h) :: r => if (id =? k)%N then r else (k, h) :: m_remove r id
   end.
 
+(* every id of [1, mx] is taken: the only reason (beside max = 0) for which mpt_command_reserve may
+   refuse (allocation is assumed to succeed).  mx can be 2^63: it is compared with the size of the
+   map before anything is enumerated *)
+Definition ids_exhausted (m : list (N * hdl)) (mx : N) : bool :=
+  if (mx <=? N.of_nat (length m))%N
+  then forallb (fun i => is_some (m_lookup m (N.of_nat i))) (seq 1 (N.to_nat mx))
+  else false.
+
 Inductive sout :=
 | SOk                                           (* accepted *)
 | SDel                                          (* mpt_command_set removed the handler *)
@@ -40,9 +49,10 @@ Inductive sout :=
 | SEv (z : Z) (id : option N) (rp : option N)   (* dispatch result, ev->id, ev->reply *)
 | SBool (b : bool)
 | SVoid
+| SAux (x : aout)
 | SBad.                                         (* implementation decision not allowed *)
 
-Record adv := mkadv { a_id : option N; a_unaligned : bool }.
+Record adv := mkadv { a_id : option N; a_unaligned : bool; a_keep : bool }.
 
 (* unknownEvent on a flat message *)
 Definition s_unknown (id : N) (m : option (list byte)) (rp : option N) : Z * N * list lentry :=
@@ -155,6 +165,38 @@ Definition s_hash (s : sdisp) (ev : option event) (rsp : resp) (a : adv) : sdisp
 
 Definition fins (m : list (N * hdl)) : list lentry := map (fun kh => fin_of (snd kh)) m.
 
+(* the calls beside the dispatcher, on flat data:
+   - mpt_hash_djb2 with a length hashes exactly these bytes, without length the bytes before the first NUL,
+     of no data 0;
+   - the handler of a fresh reserved slot answers 0 to every message;
+   - reply_data::set refuses (nothing changes) to overwrite an active reply id with another one and a value
+     longer than _max; otherwise the value area starts with the new value (zeros without data) and len is
+     its length;
+   - a reply context that does not override defer() has no detached context; its pointer traits are the
+     registered ones; a dispatcher can not be copied;
+   - the built-in fallback handler on a flat message. *)
+Definition rset_spec (max : N) (cur : list byte) (len : nat) (new : list byte) : aout :=
+  let r := mk_rdata max cur in
+  if (negb (len =? 0) && negb (rd_len r =? 0)%N) || (rd_max r <? N.of_nat len)%N
+  then XRData false (rd_len r) (rd_val r)
+  else XRData true (N.of_nat len) (new ++ skipn len (rd_val r)).
+Definition aux_spec (a : aux) : aout * list lentry :=
+  match a with
+  | ADjbLen s => (XHash (djb2 s), [])
+  | ADjbStr s => (XHash (djb2 (cstr s)), [])
+  | ADjbNull _ => (XHash 0%N, [])
+  | ALogReply _ => (XInt 0%Z, [])
+  | ARSet max cur data => (rset_spec max cur (length data) data, [])
+  | ARZero max cur len => (rset_spec max cur len (repeat 0%N len), [])
+  | ADefer => (XBool false, [])
+  | ATraits => (XBool true, [])
+  | ACopy => (XBool false, [])
+  | AUnknown id m rp =>
+    let '(ret, id', rl) := s_unknown id (option_map (@concat byte) m) rp in (XUnk ret id', rl)
+  | ACmdInit (Some true) => (XInit (-4) false, [])      (* a held handler has one owner: no copy *)
+  | ACmdInit _ => (XInit 0 true, [])
+  end.
+
 Definition sstep0 (s : sdisp) (o : op) (a : adv) : sdisp * sout * list lentry :=
   let r := s_next s in
   let new := mkh FUser r r in
@@ -183,7 +225,9 @@ Definition sstep0 (s : sdisp) (o : op) (a : adv) : sdisp * sout * list lentry :=
   | OClear => (s_with_map s [], SVoid, fins (s_map s))
   | OReserve max =>
     match a_id a with
-    | None => (s, SRes None, [])
+    | None =>
+      (* refusing is allowed for max = 0 and when no id of the range is free *)
+      if (max =? 0)%N || ids_exhausted (s_map s) (reserve_max max) then (s, SRes None, []) else (s, SBad, [])
     | Some id =>
       if (1 <=? id)%N && (id <=? reserve_max max)%N && negb (max =? 0)%N
          && negb (is_some (m_lookup (s_map s) id))
@@ -209,6 +253,11 @@ Definition sstep0 (s : sdisp) (o : op) (a : adv) : sdisp * sout * list lentry :=
     (mksd [] None 0%N None (s_next s), SVoid,
      fins (s_map s) ++ (match s_fb s with Some h => [fin_of h] | None => [] end)
                     ++ (match s_ctx s with Some c => [LUnref c] | None => [] end))
+  | OArr =>
+    (* the table object is replaced by a new, empty one: every handler it held is notified
+       ([a_keep]: the harness skips the operation on a raw buffer) *)
+    if a_keep a then (s, SVoid, []) else (s_with_map s [], SVoid, fins (s_map s))
+  | OAux x => let '(r, lg) := aux_spec x in (s, SAux r, lg)
   end.
 
 Definition s_tick (s : sdisp) : sdisp :=
@@ -221,18 +270,19 @@ Definition advice (d : disp) (o : op) : adv :=
   match o with
   | OReserve max =>
     match command_reserve (d_tbl d) max with
-    | Ok (_, RSlot _ id) => mkadv (Some id) false
-    | _ => mkadv None false
+    | Ok (_, RSlot _ id) => mkadv (Some id) false false
+    | _ => mkadv None false false
     end
   | OHash (Some e) _ =>
     match e_msg e with
     | Some F => match hash_text (msg_of F) with
-                | Ok (inl code) => mkadv None (code =? -17)%Z
-                | _ => mkadv None false
+                | Ok (inl code) => mkadv None (code =? -17)%Z false
+                | _ => mkadv None false false
                 end
-    | None => mkadv None false
+    | None => mkadv None false false
     end
-  | _ => mkadv None false
+  | OArr => mkadv None false (match d_tbl d with Some tb => negb (typed tb) | None => false end)
+  | _ => mkadv None false false
   end.
 
 (* the model state seen as a specification state *)
@@ -254,6 +304,7 @@ Definition proj_out (o : op) (x : out) : sout :=
   | _, ORes _ => SRes None
   | _, OEv z i rp => SEv z i rp
   | _, OVoid => SVoid
+  | _, OAuxR x => SAux x
   | _, OFault => SBad
   | _, OFuel => SBad
   end.
